@@ -279,7 +279,7 @@ LEVEL_TEXT = ("Decomposition policy verdict = real rule tables over leaf rules. 
 LEVEL_NOTE = ("bounded shapes (see outside_bounds) with symbolic values; cryptography, transports and HMAC are oracles / seams; the policy-level statement follows from (1) and (2) "
               "only through the stub-to-rule correspondence written down in hb_anchor.c; four rule-level peculiarities that do not affect the property are asserted in weakened form "
               "and described in FINDINGS.md (O1-O5); finding F1 (publications-file PUB-02 rule ignored the aggregation time) was reproduced, fixed in /repo (fdc15f8) and is now proved absent; "
-              "CBMC C semantics; 37 seeded mutations of policy.c / verification_rule.c / publicationsfile.c are all caught (MUTATIONS.md)")
+              "CBMC C semantics; 43 seeded mutations of policy.c / verification_rule.c / publicationsfile.c are all caught (MUTATIONS.md)")
 
 # ---------------------------------------------------------------- the wrapper around OpenSSL's raw signature check (harness by the coordinator)
 H.append({"name": "h_pkiraw", "src": "h_pkiraw.c", "env": ["ctx", "fmt_stub", "list_wrap"], "tus": [], "unwind": 4, "timeout": 300, "object_bits": 12,
